@@ -22,3 +22,32 @@ def roundtrip(types, desc, cfg):
     check(r.position == len(data), "reader position at the end")
     check(back.byte_size == len(data), "byte_size equals the number of bytes written")
     check(obj.byte_size == 0, "constructed objects report byte_size 0")
+
+
+def second_object(types, desc, cfg):
+    """no memory in the generated classes: the round trip of an object is unaffected by another object of the same
+    class having been built, written and read before it (class-level state, shared instances, cached buffers)"""
+    cls = load_class(desc["module"], desc["name"])
+    first = gen_unit(types, desc["instrs"], desc["name"] + "#1", cfg, desc["entry"], "roundtrip")
+    o1 = build(types, cls, desc["instrs"], first)
+    w1 = EoWriter()
+    w1.string_sanitization_mode = desc["entry"]
+    cls.serialize(w1, o1)
+    r1 = EoReader(w1.to_bytearray())
+    r1.chunked_reading_mode = desc["entry"]
+    b1 = cls.deserialize(r1)
+    size1 = b1.byte_size
+    tree = gen_unit(types, desc["instrs"], desc["name"], cfg, desc["entry"], "roundtrip")
+    obj = build(types, cls, desc["instrs"], tree)
+    w = EoWriter()
+    w.string_sanitization_mode = desc["entry"]
+    cls.serialize(w, obj)
+    data = w.to_bytearray()
+    r = EoReader(data)
+    r.chunked_reading_mode = desc["entry"]
+    back = cls.deserialize(r)
+    same_obj(types, desc["instrs"], back, tree, desc["name"])
+    check(r.remaining == 0, "second object: deserializer consumes exactly the bytes written")
+    check(back.byte_size == len(data), "second object: byte_size equals the number of bytes written")
+    check(b1.byte_size == size1, "second object: the first deserialized instance keeps its byte_size")
+    same_obj(types, desc["instrs"], b1, first, desc["name"] + "#1")
